@@ -243,7 +243,8 @@ class SessionCheck(Check):
         b = f"{b_alg}_{nb}" if b_alg and nb > 1 else str(nb)
         o = f"{o_alg}_{no}" if o_alg and no > 1 else str(no)
         t = rng.choice(["[0.1, 0.2]", "[0.1, 0.2, 0.4]", "linspace(0.1, 0.5, 3)", "[0.3, 0.1]", "range(1, 4)",
-                        "[0.15, 0.2, 0.5, 0.55]", "(0.2, 0.4)"])
+                        "[0.15, 0.2, 0.5, 0.55]", "(0.2, 0.4)", "[0.1, 0.3, 0.5]", "arange(0.2, 0.75, 0.2)",
+                        "[0.2, 0.4, 0.6]"])
         cartesian = rng.random() < 0.4 and (no >= 4 or rng.random() < 0.1)
         return {"type": "full", "b": b, "o": o, "t": t, "factor": rng.choice([2, 2, 1, 0.5, 3.3]),
                 "cartesian": cartesian}
@@ -268,7 +269,13 @@ class SessionCheck(Check):
             if rng.random() < 0.5:
                 # the same three grid names with another metric factor / position mode, alive in the same history
                 twin = dict(fs)
-                if rng.random() < 0.5 or twin["o"] in ("1", "2", "3"):
+                respell = {"linspace(0.1, 0.5, 3)": "[0.1, 0.3, 0.5]", "[0.1, 0.3, 0.5]": "linspace(0.1, 0.5, 3)",
+                           "arange(0.2, 0.75, 0.2)": "[0.2, 0.4, 0.6]", "[0.2, 0.4, 0.6]": "arange(0.2, 0.75, 0.2)",
+                           "[0.1, 0.2]": "linspace(0.1, 0.2, 2)", "range(1, 4)": "[1, 2, 3.0000000000000004]"}
+                if twin["t"] in respell and rng.random() < 0.5:
+                    # the same radii up to the last bits, spelled another way (linspace/arange rounding)
+                    twin["t"] = respell[twin["t"]]
+                elif rng.random() < 0.5 or twin["o"] in ("1", "2", "3"):
                     twin["factor"] = {2: 3.3, 1: 2, 0.5: 1, 3.3: 0.5}[twin["factor"]]
                 else:
                     twin["cartesian"] = not twin["cartesian"]
